@@ -150,6 +150,7 @@ FUNCTIONS = [
         requires CUR_PRE(this)
         assigns
         ensures RET == POS(this)'''},
+    {'q': 'Pistache::StreamCursor::reset'},
     {'q': 'Pistache::StreamCursor::Token::Token'},
     {'q': 'Pistache::StreamCursor::Token::rawText'},
     {'q': 'Pistache::StreamCursor::Token::size'},
